@@ -352,7 +352,7 @@ func c16TestFile(pkg string, st importStyle, progs []*Program, own []*Program) (
 					call = strings.ReplaceAll(call, fmt.Sprintf("$%d", i), fmt.Sprint(in[i]))
 				}
 				s := strings.ReplaceAll(call, "$P", "")
-				r := strings.ReplaceAll(call, "$P"+p.Name, "Q"+p.Name[1:])
+				r := strings.ReplaceAll(strings.ReplaceAll(call, "$P", ""), p.Name, "Q"+p.Name[1:])
 				fmt.Fprintf(&sb, "\tif a, b := drainT[%s](func() iterI[%s] { return %s }), drainT[%s](func() iterI[%s] { return %s }); fmt.Sprint(a) != fmt.Sprint(b) {\n\t\tt.Errorf(\"%%s: compiled %%v reference %%v\", %q, a, b)\n\t}\n", e.Elem, e.Elem, s, e.Elem, e.Elem, r, s)
 			}
 		}
@@ -830,6 +830,7 @@ func pureProfile() *profile {
 	p := controlFlowProfile()
 	p.name = "pure"
 	p.noEv = true
+	p.noMethods = true
 	p.elems = []string{"int"}
 	p.nGens = [2]int{2, 2}
 	p.w["genlit"] = 0
@@ -842,6 +843,7 @@ func pureProfile() *profile {
 func interleaveProfile() *profile {
 	p := controlFlowProfile()
 	p.name = "interleave"
+	p.noMethods = true
 	p.elems = []string{"int"}
 	p.nGens = [2]int{2, 2}
 	p.w["yieldfrom"] = 4
